@@ -22,6 +22,9 @@ type Scenario struct {
 	// scenario is explored by the one worker that claims it (set automatically when a
 	// harness has few scenarios).
 	Shard bool
+	// NoShard keeps the whole scenario on one worker even when a harness has few scenarios
+	// (for scenarios that do all their work inside a single execution).
+	NoShard bool
 	// Concurrent runs Run as thread 0 of the cooperative scheduler.
 	Concurrent bool
 	// PreemptionBound < 0 means unbounded interleavings with sleep-set reduction;
